@@ -296,7 +296,7 @@ def _work(req):
     import pretty_midi
     from note_seq import midi_io
     op = req['op']
-    out = {}
+    out = {'op': op}
     if op == 'pm':
         pm = _build_pm(req['input'])
         out['res'] = _call(lambda: midi_io.midi_to_note_sequence(pm))
@@ -1038,7 +1038,7 @@ def sweeps(rng, complete):
 
 def cases(rng, tier, n=None):
     thorough = tier == 'thorough'
-    N = n if n is not None else (60000 if thorough else 12000)
+    N = n if n is not None else (100000 if thorough else 6000)
     cs = []
     seeds = []
 
@@ -1251,7 +1251,7 @@ def extra_evidence():
         if 'res' not in r:
             continue
         res = r['res']
-        key = res[1] if res[0] == 'EXC' else 'OK'
+        key = r.get('op', '?') + ':' + (res[1] if res[0] == 'EXC' else 'OK')
         outcomes[key] = outcomes.get(key, 0) + 1
         if not r.get('parsed'):
             ctor_exc[r.get('parse_exc', '?')] = ctor_exc.get(r.get('parse_exc', '?'), 0) + 1
@@ -1277,7 +1277,7 @@ def extra_evidence():
                     upd('cc_value', c[2])
     return {
         'c16_cases_by_generator': dict(sorted(_GENS.items())),
-        'c16_outcomes_by_exception_class': outcomes,
+        'c16_outcomes_by_op_and_exception_class': outcomes,   # op pm includes objects OUTSIDE pm_inv (foreign exceptions expected there)
         'c16_constructor_exception_classes': ctor_exc,
         'c16_resource_cases': resource,
         'c16_parsed_objects_monitored': parsed,
